@@ -76,7 +76,7 @@ man = {
         "kind_free_text": "repository-specific static checker: ast loader, annotation-driven call graph, guarded linearisation (syntax-directed dominance with guard algebra), order-type/decision-table/linear-normal-form deciders, rule files sa/rules/cXX.py",
     }],
     "checks": checks,
-    "notes": "All checks are static analysis of /repo/src/gtirb_rewriting (VERIF_REPO overrides the root for the self-test's scratch copies). exit 0 held / 1 VIOLATION / 2 ANALYSIS-ERROR (anchor vanished or shape not interpretable - never a silent pass). Known findings: /verif/known_findings.json.",
+    "notes": "All checks are static analysis of /repo/src/gtirb_rewriting (VERIF_REPO overrides the root for the self-test's scratch copies). exit 0 held / 1 VIOLATION / 2 ANALYSIS-ERROR (anchor vanished, shape not interpretable, or - restructuring gate, DESIGN 3.7 - a mechanism rule met a function that was restructured relative to the tree it was validated on (sa/reference_shapes.json): the obligations it could not match are listed and the rule must be re-validated; never a silent pass, never reported as a violation). Generic lints (GEN.*) and the interpretive rules in core.UNGATED_RULES judge whatever code is there. Known findings: /verif/known_findings.json.",
     "not_applicable": na,
 }
 (ROOT / "MANIFEST.json").write_text(json.dumps(man, indent=1) + "\n")
